@@ -9,9 +9,9 @@ import (
 
 func init() {
 	register(&propInfo{
-		ID:     "C15",
-		Run:    runC15,
-		MinObl: 16,
+		ID:          "C15",
+		Run:         runC15,
+		MinObl:      16,
 		Explanation: "Decided: R1 client assertion — every success exit of the assertion branch of the default client authentication (jwt.ParseWithClaims and the key function traversed in place) requires: the registered method private_key_jwt; the registered signing algorithm equal to the header alg; the verification key obtained from the client's registered JWKS for an RS*/ES*/PS* method (HS* and unknown methods are fail exits); signature verification by the parser; Claims.Valid()==nil; VerifyIssuer(client id, required); sub == client id; a non-empty jti; ClientAssertionJWTValid(jti)==nil; an exp claim of a numeric type; SetClientAssertionJWT(jti, exp)==nil; and the audience matching a configured token URL; the client returned is the one looked up for that id; R2 at-most-once marking: the results of SetClientAssertionJWT / MarkJWTUsedForTime are tested and a non-nil result reaches only fail exits; in the reference store the existence test and the insertion of a jti happen under one uninterrupted write-lock hold and the exists edge returns ErrJTIKnown before the write; R3 JWT-bearer grant: success requires the signature verified with a key looked up for (iss, sub[, kid]), a non-empty audience containing a token URL, exp present and not before now, nbf not after now, iat present unless optional, exp − iat within the configured maximum, jti present unless optional and unused, the requested scopes covered by the key's scopes (C12) and the jti marked. NOT decided: go-jose's signature verification, interleavings beyond the store's atomic section.",
 	})
 }
@@ -51,7 +51,7 @@ func c15R1(c *Ctx) {
 		c.RoleUnmatched(rule, role, "(*Fosite).DefaultClientAuthenticationStrategy")
 		return
 	}
-	ex := c.Explore(fn, ExploreConfig{Inline: authnInline(c.P), ForceInline: func(f *ssa.Function) bool { return f.String() == pkgJWT+".ParseWithClaims" }}, "authn-deep")
+	ex := c.Explore(fn, ExploreConfig{Inline: authnInline(c.P), Opaque: func(f *ssa.Function) bool { return c.P.RefsMethod(f, 0, ".GetJSONWebKeys", ".Resolve") }, ForceInline: func(f *ssa.Function) bool { return f.String() == pkgJWT+".ParseWithClaims" }}, "authn-deep")
 	if !c.complete(ex, rule, role, fn) {
 		return
 	}
@@ -139,7 +139,9 @@ func c15R1(c *Ctx) {
 			fail("claims-valid", p, "assertion accepted without Claims.Valid()==nil")
 		}
 		// issuer / subject against the client id
-		iss, _ := p.BoolCall(".VerifyIssuer", func(t *Term) bool { return len(t.Args) == 3 && t.Args[1].Key() == clientID.Key() && t.Args[2].Key() == tTrue.Key() })
+		iss, _ := p.BoolCall(".VerifyIssuer", func(t *Term) bool {
+			return len(t.Args) == 3 && t.Args[1].Key() == clientID.Key() && t.Args[2].Key() == tTrue.Key()
+		})
 		if !iss {
 			fail("issuer", p, "assertion accepted without VerifyIssuer(client id, required)")
 		}
@@ -148,14 +150,18 @@ func c15R1(c *Ctx) {
 		for _, f := range p.Facts {
 			if f.Atom.Kind == "EQ" && f.Pol {
 				for _, pr := range [][2]*Term{{f.Atom.A, f.Atom.B}, {f.Atom.B, f.Atom.A}} {
-					if pr[1].Key() == clientID.Key() && pr[0].Mentions(func(s *Term) bool { return s.Op == "lookup" && len(s.Args) == 2 && s.Args[1].Key() == tStr("sub").Key() }) {
+					if pr[1].Key() == clientID.Key() && pr[0].Mentions(func(s *Term) bool {
+						return s.Op == "lookup" && len(s.Args) == 2 && s.Args[1].Key() == tStr("sub").Key()
+					}) {
 						subOK = true
 					}
 				}
 			}
 		}
 		// clientID may itself be the sub claim (no client_id in the body): then iss is still compared with it
-		if clientID.Mentions(func(s *Term) bool { return s.Op == "lookup" && len(s.Args) == 2 && s.Args[1].Key() == tStr("sub").Key() }) {
+		if clientID.Mentions(func(s *Term) bool {
+			return s.Op == "lookup" && len(s.Args) == 2 && s.Args[1].Key() == tStr("sub").Key()
+		}) {
 			subOK = true
 		}
 		if !subOK {
@@ -166,7 +172,9 @@ func c15R1(c *Ctx) {
 			fail("jti-unused", p, "assertion accepted without ClientAssertionJWTValid(jti)==nil")
 		} else {
 			jti = vj.Arg(1)
-			if !jti.Mentions(func(s *Term) bool { return s.Op == "lookup" && len(s.Args) == 2 && s.Args[1].Key() == tStr("jti").Key() }) {
+			if !jti.Mentions(func(s *Term) bool {
+				return s.Op == "lookup" && len(s.Args) == 2 && s.Args[1].Key() == tStr("jti").Key()
+			}) {
 				fail("jti-unused", p, "the value checked against the jti registry is not the jti claim")
 			}
 			if !p.NonEmptyStr(jti) {
@@ -177,7 +185,9 @@ func c15R1(c *Ctx) {
 		if sj == nil || !p.IsNil(sj.Result) || jti != nil && sj.Arg(1).Key() != jti.Key() {
 			fail("jti-marked", p, "assertion accepted without SetClientAssertionJWT(jti, exp)==nil for the checked jti")
 		} else {
-			if !sj.Arg(2).Mentions(func(s *Term) bool { return s.Op == "lookup" && len(s.Args) == 2 && s.Args[1].Key() == tStr("exp").Key() }) {
+			if !sj.Arg(2).Mentions(func(s *Term) bool {
+				return s.Op == "lookup" && len(s.Args) == 2 && s.Args[1].Key() == tStr("exp").Key()
+			}) {
 				fail("exp-typed", p, "the jti is registered with an expiry that is not the assertion's exp claim")
 			}
 		}
